@@ -113,6 +113,16 @@ def make_cfg(rng, events=("Probe",), long_steps=False):
            "H": {"class": "RandHFT", "numAgents": rng.randint(1, 2), "markets": ["M"], "cashAmount": 1000, "assetVolume": 10}}
     if "I" in cfg["simulation"]["markets"]:
         cfg["A"]["markets"] = ["M", "I"]
+    if nm > 1 and rng.random() < 0.5:
+        # individually configured markets with different prices at time 0 (instead of one group expanded by numMarkets)
+        base = cfg.pop("M")
+        base.pop("numMarkets")
+        for nme in names:
+            cfg[nme] = dict(base, marketPrice=rng.choice([100.0, 80.0, 130.0, 100.0]))
+        sm = cfg["simulation"]["markets"]
+        cfg["simulation"]["markets"] = names + [x for x in sm if x != "M"]
+        for g in ("A", "H"):
+            cfg[g]["markets"] = names + [x for x in cfg[g]["markets"] if x != "M"]
     tgt = rng.sample(names, rng.randint(1, len(names)))
     cfg["PriceLimit"] = {"class": "PriceLimitRule", "targetMarkets": tgt, "triggerChangeRate": rng.choice([0.01, 0.03, 0.1])}
     cfg["Halt"] = {"class": "TradingHaltRule", "targetMarkets": rng.sample(names, rng.randint(1, len(names))), "triggerChangeRate": rng.choice([0.005, 0.02, 0.05]),
